@@ -196,6 +196,11 @@ type c27Tracer struct {
 	exitUsed   uint64 // gas used reported for the outermost frame
 	exitSeen   bool
 	memGrowths int
+	// optional capture (stack-depth family): the operand stack seen at the last step of the frames at capDepth,
+	// and the outcome class of every non-outermost frame
+	capDepth   int
+	capStack   []uint256.Int
+	childClass []string
 }
 
 type c27Abort struct{ why string }
@@ -210,6 +215,8 @@ func (t *c27Tracer) reset(gas uint64) {
 	t.ops = t.ops[:0]
 	t.exitSeen, t.exitUsed = false, 0
 	t.stepLimit = gas + 1
+	t.capStack = t.capStack[:0]
+	t.childClass = t.childClass[:0]
 }
 
 func (t *c27Tracer) fail(format string, a ...any) {
@@ -242,6 +249,7 @@ func (t *c27Tracer) onExit(depth int, output []byte, gasUsed uint64, err error, 
 		gasUsed = f.gasEnter
 	}
 	if len(t.frames) > 0 {
+		t.childClass = append(t.childClass, c27Class(err))
 		p := &t.frames[len(t.frames)-1]
 		p.child = true
 		p.childEnter, p.childUsed = f.gasEnter, gasUsed
@@ -279,6 +287,9 @@ func (t *c27Tracer) onOpcode(pc uint64, op byte, gas, cost uint64, scope tracing
 	}
 	st := scope.StackData()
 	mem := scope.MemoryData()
+	if t.capDepth > 0 && depth == t.capDepth {
+		t.capStack = append(t.capStack[:0], st...)
+	}
 	if len(st) > t.maxStack {
 		t.maxStack = len(st)
 	}
@@ -387,10 +398,11 @@ func (t *c27Tracer) hooks() *tracing.Hooks {
 // Environment.
 
 type c27Env struct {
-	rs  progx.RuleSet
-	st  *state.StateDB
-	evm *vm.EVM
-	tr  *c27Tracer
+	calleeCode []byte // if set, deployed at B for the run
+	rs         progx.RuleSet
+	st         *state.StateDB
+	evm        *vm.EVM
+	tr         *c27Tracer
 }
 
 var (
@@ -511,6 +523,9 @@ func (e *c27Env) run(mode string, code []byte, gas, value uint64) (res c27Result
 		if mode == "call" {
 			e.st.Prepare(rules, progx.AddrOrigin, progx.AddrC, &progx.AddrA, vm.ActivePrecompiles(rules), nil)
 			e.st.SetCode(progx.AddrA, code, tracing.CodeChangeUnspecified)
+			if e.calleeCode != nil {
+				e.st.SetCode(progx.AddrB, e.calleeCode, tracing.CodeChangeUnspecified)
+			}
 			ret, left, err = e.evm.Call(progx.AddrOrigin, progx.AddrA, c27Input, budget, uint256.NewInt(value))
 		} else {
 			e.st.Prepare(rules, progx.AddrOrigin, progx.AddrC, nil, vm.ActivePrecompiles(rules), nil)
@@ -777,6 +792,11 @@ func TestVerif_C27(t *testing.T) {
 		tmu <- struct{}{}
 		var maxStack, maxMem int
 		target := c27ReplayTarget()
+		// the small structured families first: they must complete even when the machine is so loaded
+		// that the byte-string enumeration below runs into the deadline
+		c27Depth(r, forks, target)
+		c27Args(r, forks, target)
+		c27Struct(r, forks, target)
 		r.Parallel(len(shards), func(si int) {
 			sh := shards[si]
 			if target != nil && (target.Fork != sh.fork || target.Mode != sh.mode || target.Prologue != sh.pro || len(target.Prog) != 2*sh.length) {
@@ -838,8 +858,6 @@ func TestVerif_C27(t *testing.T) {
 		}
 		r.Bound("max_stack_seen", maxStack)
 		r.Bound("max_memory_seen", maxMem)
-		c27Args(r, forks, target)
-		c27Struct(r, forks, target)
 	})
 }
 
@@ -1095,4 +1113,229 @@ func c27Struct(r *mc.R, forks []string, target *c27Case) {
 		r.OutcomeN(k, v)
 	}
 	r.Bound("struct.max_steps_in_one_run", deepest)
+}
+
+// ---------------------------------------------------------------------------
+// Stack-depth boundary family: every instruction whose operand depth is fixed by
+// the opcode (DUP1-16, SWAP1-16) or decoded from an immediate (EIP-8024 DUPN,
+// SWAPN, EXCHANGE) is executed on stacks of height R-2..R+2 around the height R
+// it requires, as the outermost frame and inside a child frame whose parent
+// holds sentinel operands.
+
+// c27DecodeSingle / c27DecodePair transcribe decode_single / decode_pair of EIP-8024
+// (immediates 91..127 resp. 82..127 are invalid so that no immediate is a JUMPDEST or PUSH).
+func c27DecodeSingle(x int) (n int, ok bool) {
+	if x >= 91 && x <= 127 {
+		return 0, false
+	}
+	return (x + 145) % 256, true
+}
+
+func c27DecodePair(x int) (n, m int, ok bool) {
+	if x >= 82 && x <= 127 {
+		return 0, 0, false
+	}
+	k := x ^ 143
+	q, r := k/16, k%16
+	if q < r {
+		return q + 1, r + 1, true
+	}
+	return r + 1, 29 - q, true
+}
+
+type c27DepthOp struct {
+	name     string
+	code     []byte // opcode (+ immediate)
+	since    string
+	valid    bool                       // false: invalid immediate => invalid opcode whatever the height (>= 2)
+	required int                        // R: stack items needed
+	apply    func(st []uint64) []uint64 // reference effect on a stack (bottom..top) of height >= R
+}
+
+func c27DepthOps() []c27DepthOp {
+	var ops []c27DepthOp
+	swap := func(a, b int) func([]uint64) []uint64 { // a, b: 1-based positions from the top
+		return func(st []uint64) []uint64 {
+			out := append([]uint64{}, st...)
+			n := len(out)
+			out[n-a], out[n-b] = out[n-b], out[n-a]
+			return out
+		}
+	}
+	dup := func(a int) func([]uint64) []uint64 {
+		return func(st []uint64) []uint64 { return append(append([]uint64{}, st...), st[len(st)-a]) }
+	}
+	for k := 1; k <= 16; k++ {
+		ops = append(ops, c27DepthOp{fmt.Sprintf("DUP%d", k), []byte{byte(0x7f + k)}, "Frontier", true, k, dup(k)})
+		ops = append(ops, c27DepthOp{fmt.Sprintf("SWAP%d", k), []byte{byte(0x8f + k)}, "Frontier", true, k + 1, swap(1, k+1)})
+	}
+	for x := 0; x < 256; x++ {
+		if n, ok := c27DecodeSingle(x); ok {
+			ops = append(ops, c27DepthOp{fmt.Sprintf("DUPN[%#02x]=%d", x, n), []byte{progx.DUPN, byte(x)}, "Amsterdam", true, n, dup(n)})
+			ops = append(ops, c27DepthOp{fmt.Sprintf("SWAPN[%#02x]=%d", x, n), []byte{progx.SWAPN, byte(x)}, "Amsterdam", true, n + 1, swap(1, n+1)})
+		} else {
+			ops = append(ops, c27DepthOp{fmt.Sprintf("DUPN[%#02x]=invalid", x), []byte{progx.DUPN, byte(x)}, "Amsterdam", false, 0, nil})
+			ops = append(ops, c27DepthOp{fmt.Sprintf("SWAPN[%#02x]=invalid", x), []byte{progx.SWAPN, byte(x)}, "Amsterdam", false, 0, nil})
+		}
+		if n, m, ok := c27DecodePair(x); ok {
+			ops = append(ops, c27DepthOp{fmt.Sprintf("EXCHANGE[%#02x]=%d,%d", x, n, m), []byte{progx.EXCHANGE, byte(x)}, "Amsterdam", true, max(n, m) + 1, swap(n+1, m+1)})
+		} else {
+			ops = append(ops, c27DepthOp{fmt.Sprintf("EXCHANGE[%#02x]=invalid", x), []byte{progx.EXCHANGE, byte(x)}, "Amsterdam", false, 0, nil})
+		}
+	}
+	// a missing immediate (code ends after the opcode) reads as 0x00
+	n0, _ := c27DecodeSingle(0)
+	ops = append(ops, c27DepthOp{"DUPN[missing]", []byte{progx.DUPN}, "Amsterdam", true, n0, dup(n0)})
+	ops = append(ops, c27DepthOp{"SWAPN[missing]", []byte{progx.SWAPN}, "Amsterdam", true, n0 + 1, swap(1, n0+1)})
+	a0, b0, _ := c27DecodePair(0)
+	ops = append(ops, c27DepthOp{"EXCHANGE[missing]", []byte{progx.EXCHANGE}, "Amsterdam", true, max(a0, b0) + 1, swap(a0+1, b0+1)})
+	return ops
+}
+
+func c27Depth(r *mc.R, forks []string, target *c27Case) {
+	ops := c27DepthOps()
+	contexts := []struct {
+		name  string
+		op    byte
+		since string
+	}{{"outer", 0, "Frontier"}, {"CALL", progx.CALL, "Frontier"}, {"DELEGATECALL", progx.DELEGATECALL, "Homestead"}, {"STATICCALL", progx.STATICCALL, "Byzantium"}}
+	sentinels := []uint64{0xdead01, 0xdead02, 0xdead03}
+	r.Bound("depth.instructions", len(ops))
+	r.Bound("depth.heights", "R-2..R+2 around the required height R (invalid immediates: heights 2 and 20)")
+	r.Assume("EIP-8024: decode_single(x) = (x+145) mod 256 for x outside 91..127; decode_pair(x): k = x xor 143, (q,r) = divmod(k,16), (q+1,r+1) if q<r else (r+1,29-q), x outside 82..127; " +
+		"DUPN n needs n items, SWAPN n needs n+1, EXCHANGE (n,m) needs max(n,m)+1; a missing immediate reads as 0")
+	type shard struct {
+		fork string
+		lo   int
+	}
+	const chunk = 32
+	var shards []shard
+	for _, f := range forks {
+		for lo := 0; lo < len(ops); lo += chunk {
+			shards = append(shards, shard{f, lo})
+		}
+	}
+	total := map[string]int64{}
+	mu := make(chan struct{}, 1)
+	mu <- struct{}{}
+	r.Parallel(len(shards), func(si int) {
+		sh := shards[si]
+		if target != nil && (target.Fork != sh.fork || !strings.HasPrefix(target.Prologue, "depth:")) {
+			return
+		}
+		rs := progx.Fork(sh.fork)
+		env := newC27Env(rs)
+		out := map[string]int64{}
+		var evals int64
+		for _, op := range ops[sh.lo:min(sh.lo+chunk, len(ops))] {
+			if !rs.At(op.since) || r.Expired() {
+				continue
+			}
+			heights := []int{2, 20}
+			if op.valid {
+				heights = heights[:0]
+				for h := op.required - 2; h <= op.required+2; h++ {
+					if h >= 0 {
+						heights = append(heights, h)
+					}
+				}
+			}
+			for _, h := range heights {
+				// the code under test: h distinct items, then the instruction, then (implicit) STOP
+				body := progx.New()
+				ref := make([]uint64, h)
+				for i := 0; i < h; i++ {
+					ref[i] = uint64(0x100 + i)
+					body.Op(progx.PUSH2, byte(ref[i]>>8), byte(ref[i]))
+				}
+				body.Raw(op.code)
+				want := "success"
+				switch {
+				case !op.valid:
+					want = "invalid-opcode"
+				case h < op.required:
+					want = "stack-underflow"
+				}
+				for _, cx := range contexts {
+					if !rs.At(cx.since) {
+						continue
+					}
+					name := fmt.Sprintf("depth:%s:%s:h%d", cx.name, op.name, h)
+					if target != nil && target.Prologue != name {
+						continue
+					}
+					var code []byte
+					env.calleeCode = nil
+					env.tr.capDepth = 1
+					if cx.op != 0 {
+						p := progx.New()
+						for _, s := range sentinels {
+							p.Push(s)
+						}
+						childGas := uint64(1_000_000) // explicit: before EIP-150 a request for all remaining gas cannot be paid
+						code = p.CallKind(cx.op, progx.AddrB, &childGas, 0).Op(progx.POP, progx.STOP).Bytes()
+						env.calleeCode = body.Bytes()
+						env.tr.capDepth = 2
+					} else {
+						code = body.Bytes()
+					}
+					var res c27Result
+					verr := mc.Safely(func() error {
+						var e2 error
+						res, e2 = env.run("call", code, c27BaseGas, 0)
+						if e2 != nil {
+							return e2
+						}
+						got := res.class
+						if cx.op != 0 {
+							if res.class != "success" {
+								return fmt.Errorf("the parent frame ended with %s", res.class)
+							}
+							if len(env.tr.childClass) != 1 {
+								return fmt.Errorf("expected exactly one child frame, saw %v", env.tr.childClass)
+							}
+							got = env.tr.childClass[0]
+						}
+						if got != want {
+							return fmt.Errorf("%s on a stack of %d items (needs %d): outcome %s, expected %s", op.name, h, op.required, got, want)
+						}
+						if want == "success" {
+							exp := op.apply(ref)
+							st := env.tr.capStack
+							if len(st) != len(exp) {
+								return fmt.Errorf("%s: stack has %d items afterwards, expected %d", op.name, len(st), len(exp))
+							}
+							for i := range exp {
+								if !st[i].IsUint64() || st[i].Uint64() != exp[i] {
+									return fmt.Errorf("%s on %d items: item %d (from the bottom) is %s afterwards, expected %#x", op.name, h, i, st[i].Hex(), exp[i])
+								}
+							}
+						}
+						return nil
+					})
+					if verr != nil && (strings.HasPrefix(verr.Error(), "panic:") || strings.HasPrefix(verr.Error(), "aborted")) {
+						env = newC27Env(rs)
+					}
+					if verr != nil || r.Replaying() {
+						r.Case(c27Case{sh.fork, "call", name, fmt.Sprintf("%x", op.code), c27BaseGas, 0, "baseline"}, func() error { return verr })
+					} else {
+						evals++
+					}
+					out[cx.name+":"+want]++
+					r.DistinctHash(mc.Hash64(sh.fork + name))
+				}
+			}
+		}
+		env.calleeCode = nil
+		env.tr.capDepth = 0
+		r.Eval(evals)
+		<-mu
+		for k, v := range out {
+			total["depth:"+k] += v
+		}
+		mu <- struct{}{}
+	})
+	for k, v := range total {
+		r.OutcomeN(k, v)
+	}
 }
